@@ -7,3 +7,38 @@ try:
     REPLAYERS.update(getattr(_ring, "REPLAYERS", {}))
 except ImportError:
     _ring = None
+
+import z3
+from pyvc import sym
+
+
+@unit(P, "L[stochastic universal sampling: k pointers, floor/ceil counts, zero weight never selected (real arithmetic)]", "L", targets=[])
+def u_l_sus(ctx):
+    """Lemmas over the specification in real arithmetic (the float clauses are the ring's and the recorded findings):
+    pointers ptr_i = o + i*d, i = 0..k-1, with d = W/k > 0 and 0 <= o < d; element m owns [c_{m-1}, c_m) with c_m - c_{m-1} = w_m."""
+    ctx.assume_note("real arithmetic; the float behaviour (pointer rounding across a boundary) is known finding C17-F37")
+    o, d, W, a, w = z3.Reals("o d W a w")
+    k, i = z3.Ints("k i")
+    F = lambda t: z3.ToInt(t)            # floor
+    kk = z3.ToReal(k)
+    pre = [k >= 1, d > 0, W == kk * d, 0 <= o, o < d]
+    # all k pointers lie in [0, W): exactly k pointers are on the wheel
+    ctx.prove("pointers: every pointer o + i*d with 0 <= i < k lies in [0, W)", pre + [0 <= i, i < k],
+              z3.And(o + z3.ToReal(i) * d >= 0, o + z3.ToReal(i) * d < W))
+    # number of lattice points o + i*d in [a, a+w) is floor((a+w-o)/d - eps..) ; stated with the counting function
+    # N(t) = number of lattice points < t = ceil((t - o)/d) for t >= o, i.e. -floor(-(t-o)/d)
+    y, u = z3.Reals("y u")
+    ctx.prove("lattice: an interval of length u (in units of d) holds floor(u) or floor(u)+1 lattice points: "
+              "ceil(y+u) - ceil(y) in {floor(u), floor(u)+1}", [u >= 0],
+              z3.Or((-F(-(y + u))) - (-F(-y)) == F(u), (-F(-(y + u))) - (-F(-y)) == F(u) + 1))
+    ctx.prove("lattice: ... and equals u exactly when u is an integer", [u >= 0, u == z3.ToReal(F(u))],
+              (-F(-(y + u))) - (-F(-y)) == F(u))
+    ctx.prove("zero weight: an element of weight 0 owns an empty interval [c, c) and receives no pointer", [w == 0],
+              z3.Not(z3.And(a <= o, o < a + w)))
+    ctx.prove("canary: an interval of length u holds at most floor(u) lattice points", [u >= 0],
+              (-F(-(y + u))) - (-F(-y)) <= F(u), expect="fail", timeout_ms=3000)
+    # tiled choice: nsample = q*m + r with 0 <= r < m: every option appears q times in the tiles and at most once in the remainder
+    q, m, r, ns = z3.Ints("q m r ns")
+    ctx.prove("tiled choice: divmod gives q tiles and a remainder r < m of distinct options, so every option is used q or q+1 times "
+              "and the counts differ by at most one", [m >= 1, ns >= 0, ns == q * m + r, 0 <= r, r < m],
+              z3.And(q >= 0, q * m <= ns, ns < (q + 1) * m))
